@@ -374,11 +374,13 @@ Definition absolute_v := unary_marks absolute_u.
 Definition is_inf_id (v : value) : bool :=
   match vty v, vp v with TNum, PNum _ IdPInf | TNum, PNum _ IdNInf => true | _, _ => false end.
 
+Definition is_inf_num (v : value) : bool := match bf_of v with Some (BInf _ _) => true | _ => false end.
+
 Definition modulo_u (a b : value) : res value :=
   do sc <- type_check TNum [a; b] false false;
   match sc with
   | SC_none =>
-      if is_inf_id a || is_inf_id b then mul_v a b else
+      if is_inf_num a || is_inf_num b then mul_v a b else      (* fix: commit f90d1a7 (was: the two singletons only) *)
       match bf_of a, bf_of b with
       | Some x, Some y =>
           if raw_number_equal y bf_zero53 then Ok a else
